@@ -5,6 +5,9 @@ SPEC = {
          "harness": ["verifsys/doc.go", "verifsys/common_*.go", "verifsys/c05_*.go"],
          "binary": {"race": True}, "compile_then_run": True,
          "timeout_quick": 600, "timeout_thorough": 3000, "hang_is_violation": False},
+        {"name": "dhcpd", "pkg": "./internal/dhcpd/", "run": "^TestVerifC05Dhcpd$",
+         "harness": ["dhcpd/c05_*.go"], "race": True,
+         "timeout_quick": 600, "timeout_thorough": 3000},
     ],
 }
 
